@@ -101,6 +101,13 @@ func runP1Big(args []string) error {
 		dir := filepath.Join(c.dir, fmt.Sprintf("p1big-%d", idx))
 		base := p1Bases[idx%len(p1Bases)]
 		a, err := buildArch1(dir, names, prot, nv, base)
+		if cr, ok := err.(*createRefused); ok {
+			// Create refused a legitimate set (at most 255 files, files plus volumes at most 256): a judged event
+			lg.Emit(tracelog.M{"ev": "p1op", "op": "create", "scn": idx, "small": false, "created": []string{}, "created_unexpected": []string{},
+				"changed_by_create": []string{}, "res": tracelog.M{"err": "refused", "errtext": cr.err.Error()}, "writes": []string{}, "outside": []string{}, "changed_ok": true,
+				"bad": []int{}, "vols": []int{}, "n": nf, "untouched": false})
+			continue
+		}
 		if err != nil {
 			return fmt.Errorf("scenario %d: %v", idx, err)
 		}
